@@ -31,25 +31,13 @@ class C15(Check):
             return rc
         reports = re.split(r"(?=WARNING: DATA RACE)", p.stderr)[1:]
         known, other = 0, []
-        allowed = {"github.com/openconfig/gnmi/cache.(*Target)." + f
-                   for f in ("gnmiUpdate", "checkTimestamp", "resetTimestamp", "updateMeta")}
         for rep in reports:
-            # the known finding: both racing accesses are Target.sync / Target.ts sites
-            tops = re.findall(r"(?:Write|Read|Previous write|Previous read) at [^\n]*\n\s+(\S+)\(\)", rep)
-            if len(tops) >= 2 and set(tops[:2]) <= allowed:
-                known += 1
-            else:
-                other.append(rep)
-        kf = {(k["property"], k["tag"]) for k in vlib.known_findings().get("open", [])}
-        vlib.log("C15 race run: %d reports (%d on Target.sync/ts inside gnmiUpdate), log %s" % (len(reports), known, logp))
+            other.append(rep)
+        vlib.log("C15 race run: %d reports, log %s" % (len(reports), logp))
         for line in p.stdout.splitlines():
             m = re.match(r"quiescent (\S+) leaves=(-?\d+) added=(-?\d+) deleted=(-?\d+) stored=(-?\d+)", line)
-            if m and int(m.group(2)) != int(m.group(3)) - int(m.group(4)):
+            if m and (int(m.group(2)) != int(m.group(3)) - int(m.group(4)) or int(m.group(2)) != int(m.group(5))):
                 other.append("counter law broken at quiescence: " + line)
-        if known and ("C15", 14) in kf:
-            vlib.log("KNOWN-FINDING: property=C15 Target.sync / Target.ts accessed without a common lock by the update stream and the periodic refresh (race detector)")
-        elif known:
-            other.append("race on Target.sync/ts not listed as known finding")
         if other:
             rp = self.replay_path(dict(property="C15", kind="race", reports=other[:3], log=logp))
             vlib.log("VIOLATION property=C15 replay=%s no-failing-input-found" % rp)
@@ -60,7 +48,7 @@ class C15(Check):
 reg(C15(
     "C15", "c15",
     coq_targets=["Cache/MultiCache.vo", "Cache/C14Check.vo", "Latency/LatencyModel.vo", "Cache/C15Check.vo",
-                 "Latency/LatencyProofs.vo", "Cache/C14Proofs.vo", "Cache/C15Proofs.vo", "Props/C15.vo"],
+                 "Latency/LatencyProofs.vo", "Cache/C14Proofs.vo", "Cache/C15Proofs.vo", "Cache/C15Count.vo", "Props/C15.vo"],
     assumptions=[
         "single goroutine per target for the counter laws (the concurrency clause is a lockset annotation, see C15_no_unprotected_access_*)",
         "one clock reading per API call; the clock (cache.Now, latency.Now) does not run backwards",
@@ -71,5 +59,5 @@ reg(C15(
     ],
     modelled=["cache/cache.go counter updates on every branch of Target.GnmiUpdate / gnmiUpdate / gnmiRemove, checkTimestamp, updateMeta, updateSize, Reset (CacheModel.v + MultiCache.v); metadata/metadata.go; latency/latency.go: New, Compute, UpdateReset, UpdateLast, window add / slide / isCovered / setAvg / setMax / setMin (LatencyModel.v)"],
 ),
-    level_text="Theorems in coq/Props/C15.v state over the Gallina models of cache.Target and latency.Latency, for all histories: leaf count moves by added - deleted; every ingest unit lands in exactly one of updated/suppressed/stale/future or is returned as an error, empty notifications in empty; the latest timestamp never decreases and moves only to an accepted tracked timestamp; every exported latency statistic lies within the sample bounds of the retained slots (average within the precision); the lockset annotation of the shared fields is checked (meta, lat, tree protected; sync, ts refuted = known finding). 'leaf count = stored leaves' is refuted on the faithful model (known finding). The models are tied to the Go code by a correspondence run evaluated inside Coq, which also applies the executable specification to the implementation's own counters, Query results and exported statistics.",
+    level_text="Theorems in coq/Props/C15.v state over the Gallina models of cache.Target and latency.Latency, for all histories: leaf count = stored non-metadata leaves and moves by added - deleted; every ingest unit lands in exactly one of updated/suppressed/stale/future or is returned as an error, empty notifications in empty; the latest timestamp never decreases and moves only to an accepted tracked timestamp; every exported latency statistic lies within the sample bounds of the retained slots (average within the precision); the lockset annotation of the shared fields is checked (meta, lat, tree protected; sync, ts refuted = known finding). leaf count = number of leaves stored outside meta for all histories (false before the fix ccc875e this check led to). The models are tied to the Go code by a correspondence run evaluated inside Coq, which also applies the executable specification to the implementation's own counters, Query results and exported statistics.",
     level_note="Trusted: Coq kernel + vm_compute, the hand-written models (validated only on the explored cases), the Go harness projection, that the lockset annotation matches the code (race detector run in the thorough tier as supporting evidence only).")
